@@ -16,11 +16,11 @@ ALL_BAR_OPS = {"tick", "inc", "set_message", "println", "suspend", "reset", "fin
 
 
 def fam(name, W=3, H=4, Multi=False, MaxBars=1, D=4, BarOps=("tick",), MpOps=(), MsgShapes=("a",), TextShapes=("T",),
-        Tpls=("M",), Fins=("AndLeave",), Hz=0, DTs=(0,), Base=1, Align="top", M0="e", mode="bfs", shards=8):
+        Tpls=("M",), Fins=("AndLeave",), Hz=0, DTs=(0,), Base=1, Align="top", M0="e", TabWs=(8,), Pre=0, Once=False, mode="bfs", shards=8):
     return dict(name=name, mode=mode, shards=shards,
                 constants=dict(W=W, H=H, Multi=Multi, MaxBars=MaxBars, D=D, BarOps=set(BarOps), MpOps=set(MpOps),
                                MsgShapes=set(MsgShapes), TextShapes=set(TextShapes), Tpls=set(Tpls), Fins=set(Fins),
-                               Hz=Hz, DTs=set(DTs), Base=Base, Align=Align, M0=M0))
+                               Hz=Hz, DTs=set(DTs), Base=Base, Align=Align, M0=M0, TabWs=set(TabWs), Pre=Pre, Once=Once))
 
 
 def screen_check(pid, tier, seed, families, rules_note):
@@ -84,9 +84,9 @@ def c01(pid, tier, seed):
         fam("single_w3", W=3, H=4, D=4 if q else 5, BarOps=("tick", "set_message", "println", "suspend", "finish", "finish_and_clear", "reset", "drop"),
             MsgShapes=("e", "a", "W", "W1", "nlA", "Anl"), TextShapes=("T", "TW1", "e"), Fins=("AndLeave", "AndClear")),
         fam("single_shapes", W=4, H=3, D=3 if q else 4, BarOps=("set_message", "println", "finish_with_message", "tick"),
-            MsgShapes=("e", "a", "Wm1", "W", "W1", "2W", "2W1", "nlA", "Anl", "AnlB", "AnnB", "nl", "sgr", "sA", "wide"),
-            TextShapes=("T", "TW", "TW1", "T2W1", "TnlT", "TnnT", "e", "nl", "nlT", "Tnl"), Tpls=("M", "PnM", "MnC"), Base=0),
-        fam("single_limited", W=3, H=4, D=4 if q else 5, BarOps=("tick", "set_message", "println", "finish", "drop"), Hz=20, DTs=(0, 50000),
+            MsgShapes=("e", "a", "Wm1", "W", "W1", "2W", "2W1", "nlA", "Anl", "AnlB", "AnnB", "nl", "sgr", "sA", "wide", "WnnA", "WnA", "2WnnA"),
+            TextShapes=("T", "TW", "TW1", "T2W1", "TnlT", "TnnT", "e", "nl", "nlT", "Tnl", "TWnnT", "T2WnnT", "TWnT", "TWnTW"), Tpls=("M", "PnM", "MnC"), Base=0),
+        fam("single_limited", W=3, H=4, D=4 if q else 5, BarOps=("burst", "tick", "set_message", "println", "finish", "finish_and_clear", "drop"), Hz=20, DTs=(0, 50000),
             MsgShapes=("a", "W1", "nlA"), TextShapes=("T", "TW1")),
         fam("single_deep", W=5, H=6, D=30, BarOps=ALL_BAR_OPS - {"iter"}, MsgShapes=("e", "a", "W", "W1", "2W1", "nlA", "Anl", "AnnB", "sA", "wide"),
             TextShapes=("T", "TW", "TW1", "TnlT", "e"), Tpls=("M", "PM", "PnM", "MnC", "LM"), Fins=("AndLeave", "AndClear", "Abandon", "WithMessage"),
@@ -104,6 +104,10 @@ def c02(pid, tier, seed):
             Tpls=("M",), Fins=("AndLeave",), M0="id", shards=12),
         fam("multi_life", W=4, H=8, Multi=True, MaxBars=2, D=5 if q else 6, BarOps=("tick", "set_message", "finish", "finish_and_clear", "drop", "mp_remove"),
             MpOps=("mp_println", "mp_clear"), MsgShapes=("a", "W1"), TextShapes=("T",), Fins=("AndLeave", "AndClear"), M0="id", shards=12),
+        fam("multi_zombie_orders", W=4, H=12, Multi=True, MaxBars=3, Pre=3, Once=True, D=10 if q else 11, BarOps=("finish", "drop"), MpOps=("mp_println",),
+            TextShapes=("T",), Tpls=("M",), Fins=("AndLeave",), M0="id", shards=12),
+        fam("multi_limited", W=4, H=12, Multi=True, MaxBars=2, D=5 if q else 6, BarOps=("burst", "set_message", "finish", "drop", "tick"), MpOps=(),
+            MsgShapes=("a",), Tpls=("M",), Fins=("AndLeave",), Hz=2, DTs=(0,), M0="id", shards=12),
         fam("multi_deep", W=5, H=40, Multi=True, MaxBars=4, D=30, BarOps=ALL_BAR_OPS | {"mp_remove"}, MpOps=("insert", "insert_rel", "mp_println", "mp_suspend", "mp_clear", "mp_set_alignment"),
             MsgShapes=("e", "a", "W", "W1", "nlA", "AnnB"), TextShapes=("T", "TW1", "TnlT", "e"), Tpls=("M", "PnM", "MnC"),
             Fins=("AndLeave", "AndClear", "Abandon", "WithMessage"), DTs=(0, 1000), M0="id", mode=("sim", 400 if q else 4000, 32), shards=12),
@@ -112,7 +116,75 @@ def c02(pid, tier, seed):
                         "histories of MC_Screen over MultiProgress operations; judged by Trace_Screen (order, once, below the log, statics)")
 
 
+def c03(pid, tier, seed):
+    q = tier == "quick"
+    fams = [
+        fam("log_single_limited", W=4, H=6, D=4 if q else 5, BarOps=("burst", "tick", "println", "suspend", "set_message", "finish", "drop"),
+            MsgShapes=("a", "W1", "nlA"), TextShapes=("T", "TW1", "TnlT", "e", "TWnnT"), Hz=1, DTs=(0,), Fins=("AndLeave", "AndClear")),
+        fam("log_multi", W=4, H=12, Multi=True, MaxBars=2, D=4 if q else 5, BarOps=("tick", "finish", "drop", "println"),
+            MpOps=("mp_println", "mp_suspend", "mp_clear"), TextShapes=("T", "TW1"), Fins=("AndLeave",), Tpls=("M", "MnC"), M0="id", shards=12),
+        fam("log_multi_limited", W=4, H=12, Multi=True, MaxBars=3, D=14, BarOps=("burst", "tick", "finish", "drop", "println", "set_message"),
+            MpOps=("mp_println", "mp_suspend"), MsgShapes=("a", "W1"), TextShapes=("T", "TW1", "TnlT"), Fins=("AndLeave", "AndClear"),
+            Hz=1, DTs=(0, 1000000), M0="id", mode=("sim", 400 if q else 4000, 16), shards=12),
+        fam("log_deep", W=5, H=40, Multi=True, MaxBars=4, D=30, BarOps=("tick", "set_message", "println", "suspend", "finish", "finish_and_clear", "abandon", "drop", "mp_remove", "reset"),
+            MpOps=("insert_rel", "mp_println", "mp_suspend", "mp_clear"), MsgShapes=("e", "a", "W1", "nlA", "AnnB"), TextShapes=("T", "TW", "TW1", "T2W1", "TnlT", "TnnT", "e", "nl", "TWnnT", "TWnT"),
+            Tpls=("M", "PnM", "MnC"), Fins=("AndLeave", "AndClear", "Abandon"), DTs=(0, 1000), M0="id", mode=("sim", 400 if q else 4000, 32), shards=12),
+    ]
+    return screen_check(pid, tier, seed, fams,
+                        "histories of MC_Screen interleaving println/suspend with bar life-cycles, with exhausted limiters; LogOK = every emitted line once, in order, above the region")
+
+
+def c04(pid, tier, seed):
+    q = tier == "quick"
+    finishes = ("finish", "finish_with_message", "finish_and_clear", "abandon", "abandon_with_message", "finish_using_style")
+    fams = [
+        fam("fin_single", W=4, H=6, D=3 if q else 4, BarOps=finishes + ("burst", "set_message", "inc", "drop", "iter"), MsgShapes=("a", "W1"),
+            Tpls=("MnC",), Fins=("AndLeave", "AndClear", "Abandon", "WithMessage", "AbandonWithMessage"), Hz=20, DTs=(0,), M0="id"),
+        fam("fin_single_unlimited", W=4, H=6, D=3 if q else 4, BarOps=finishes + ("tick", "reset", "drop", "iter", "set_length"), MsgShapes=("a",),
+            Tpls=("MnC", "M"), Fins=("AndLeave", "AndClear", "Abandon", "WithMessage", "AbandonWithMessage"), M0="id"),
+        fam("fin_multi_orders", W=4, H=12, Multi=True, MaxBars=3, D=6 if q else 7, BarOps=("finish", "drop"), MpOps=(), Tpls=("MC",), Fins=("AndLeave", "AndClear"),
+            M0="id", shards=12),
+        fam("fin_multi_limited", W=4, H=12, Multi=True, MaxBars=3, D=12, BarOps=finishes + ("burst", "inc", "drop", "iter"), MsgShapes=("a",), Tpls=("MnC",),
+            Fins=("AndLeave", "AndClear", "Abandon", "WithMessage"), Hz=2, DTs=(0, 1000), M0="id", mode=("sim", 400 if q else 4000, 14), shards=12),
+    ]
+    return screen_check(pid, tier, seed, fams,
+                        "every finish path and drop, after histories that exhaust both limiters (burst of 25 ticks at one instant), all finish/drop orders of up to 3 bars; "
+                        "ForcedOK = the final frame is painted, ScreenOK = it shows the final state, GetOK = is_finished/position")
+
+
+def c16(pid, tier, seed):
+    q = tier == "quick"
+    fams = [
+        fam("tabs_single", W=40, H=6, D=4 if q else 5, BarOps=("set_tab_width", "set_style", "set_message", "set_prefix", "finish_with_message", "tick"),
+            MsgShapes=("tab", "tt", "a"), Tpls=("TM", "KM", "PM"), TabWs=(8, 0, 4), Fins=("AndLeave",)),
+        fam("tabs_multi", W=40, H=12, Multi=True, MaxBars=2, D=4 if q else 5, BarOps=("set_tab_width", "set_style", "set_message", "abandon_with_message", "tick"),
+            MsgShapes=("tab",), Tpls=("TM", "KM"), TabWs=(8, 1), Fins=("AndLeave",), shards=12),
+    ]
+    return screen_check(pid, tier, seed, fams,
+                        "every order of set_tab_width/with_tab_width, set_style/with_style, set_message/set_prefix/finish_with_message over tab widths {0,1,4,8}; "
+                        "NoTab = no TAB cell reaches the terminal, ScreenOK = each tab is tab-width spaces, GetOK = message()/prefix() are expanded")
+
+
+def c19(pid, tier, seed):
+    q = tier == "quick"
+    fams = []
+    for (w, h) in ([(1, 1), (1, 3), (2, 2), (3, 2), (3, 3)] if q else [(w, h) for w in (1, 2, 3, 4) for h in (1, 2, 3, 4)]):
+        fams.append(fam("geo_single_%dx%d" % (w, h), W=w, H=h, D=3, BarOps=("set_message", "println", "tick", "finish_and_clear"),
+                        MsgShapes=("e", "a", "Wm1", "W", "W1", "2W", "2W1", "3W", "AnlB"), TextShapes=("T", "TW", "TW1", "T2W1"), Base=0, shards=4))
+    fams.append(fam("geo_multi", W=2, H=3, Multi=True, MaxBars=5, D=5 if q else 7, BarOps=("tick", "finish_and_clear", "mp_remove"), MpOps=("mp_println",),
+                    TextShapes=("T",), Tpls=("M",), Fins=("AndLeave",), M0="id", shards=12))
+    fams.append(fam("geo_multi_deep", W=3, H=4, Multi=True, MaxBars=6, D=24, BarOps=("tick", "set_message", "finish_and_clear", "mp_remove", "drop"), MpOps=("mp_println", "insert_rel"),
+                    MsgShapes=("a", "W", "W1", "2W1"), TextShapes=("T", "TW1"), Tpls=("M",), Fins=("AndLeave", "AndClear"), M0="id", mode=("sim", 400 if q else 4000, 26), shards=12))
+    return screen_check(pid, tier, seed, fams,
+                        "terminal sizes from 1x1, line widths around multiples of the width, bar sets growing and shrinking past the terminal height; "
+                        "ScreenOK compares scrollback+viewport with the lines wrapped by the terminal rule and the leading bar lines that fit (Cut)")
+
+
 PROPS = {
     "C01": c01,
     "C02": c02,
+    "C03": c03,
+    "C04": c04,
+    "C16": c16,
+    "C19": c19,
 }
